@@ -1,6 +1,39 @@
 #!/usr/bin/env python3
-import sys
-if __name__ == "__main__":
+"""vcheck <property id> [--tier quick|thorough] : run one check, write its evidence, print the verdict."""
+import sys, os, importlib
+sys.path.insert(0, os.path.dirname(os.path.abspath(__file__)))
+import vlib
+
+MODULES = ["checks_rt", "checks_types", "checks_front", "checks_misc"]
+
+
+def registry():
+    reg = {}
+    for m in MODULES:
+        try:
+            mod = importlib.import_module(m)
+        except ModuleNotFoundError as e:
+            if e.name != m:
+                raise
+            continue
+        reg.update(mod.CHECKS)
+    return reg
+
+
+def main():
     if "--setup" in sys.argv:
-        sys.exit(0)
-    sys.exit(2)
+        vlib.build(("vdrive", "vblack", "vworker"))
+        print("setup ok")
+        return 0
+    pid = sys.argv[1]
+    if "--tier" in sys.argv:
+        os.environ["VERIF_TIER"] = sys.argv[sys.argv.index("--tier") + 1]
+    reg = registry()
+    if pid not in reg:
+        print("no check for", pid)
+        return 2
+    return reg[pid]()
+
+
+if __name__ == "__main__":
+    sys.exit(main())
